@@ -249,6 +249,7 @@ class InitGlobalsBounded(Unit):
     prop = 'C08'
     name = 'C08.initglobals'
     functions = ()
+    modifies_library_state = True      # initglobals is THE function whose frame is the module-level tables
 
     def run(self, I):
         # the closed obligation that the function is idempotent on the shipped records
